@@ -81,6 +81,11 @@ def semantic_faults(r):
         # ... with an operand that is the result of instantiating a module an earlier statement defined
         ("failed-cast:module-result-operand", ("cast", "int", ("copy", ("sym", "modw"), []))),
         ("type-mismatch:module-result-operand", ("bin", "+", ("int", 1), ("copy", ("sym", "modw"), []))),
+        # a module parameter overridden with a value of another type: a name bound earlier, a call result, a literal
+        ("module-argument-type:named-operand", ("copy", ("sym", "modp"), [("v", ("sym", "word"))])),
+        ("module-argument-type:call-result", ("copy", ("sym", "modp"), [("v", ("call", ("sym", "idf"), [("str", "w")]))])),
+        ("module-argument-type:literal", ("copy", ("sym", "modp"), [("v", ("str", "w"))])),
+        ("module-argument-type:selected-operand", ("copy", ("sym", "modp"), [("v", ("sel", ("sym", "rec2"), ("f", "s")))])),
         # a fault inside the expression of a format template
         ("unknown-name:in-format-template", ("fmt1", [("lit", "v="), ("e", ("sym", "nope"))], ("tuple", [("a", ("int", 1))]))),
         ("missing-field:in-format-template", ("fmt1", [("e", ("sel", ("sym", "item"), ("f", "zz")))], ("tuple", [("a", ("int", 1))]))),
@@ -177,7 +182,8 @@ def build_case(probe, r, nvalid, kind, ftoks, host, pos):
                ["let", "word", "=", "\"w\"", ";"], ["let", "yes", "=", "true", ";"],
                ["let", "rec", "=", "{", "a", "=", "1", "}", ";"], ["let", "lst", "=", "[", "1", "]", ";"],
                ["let", "rec2", "=", "{", "s", "=", "\"w\"", ",", "n", "=", "7", "}", ";"], ["let", "lst2", "=", "[", "\"w\"", ",", "7", "]", ";"],
-               ["let", "modw", "=", "module", "{", "}", "=>", "(", "r", ")", "{", "let", "r", "=", "\"w\"", ";", "}", ";"]]
+               ["let", "modw", "=", "module", "{", "}", "=>", "(", "r", ")", "{", "let", "r", "=", "\"w\"", ";", "}", ";"],
+               ["let", "modp", "=", "module", "{", "v", "=", "1", "}", "=>", "(", "r", ")", "{", "let", "r", "=", "mod", ".", "v", ";", "}", ";"]]
     for attempt in range(8):
         stmts, _ = progs.gen_program(r, depth=2, nstmts=max(2, nvalid), p_bad=0.0, ascii_only=True)
         stmts = [s for s in stmts if s[0] == "let"]
